@@ -39,7 +39,9 @@ func Run(c *hx.Ctx) {
 	c.Rep.Rule = "exhaustive: 256 codes x 6 named encodings (+ unknown names) against independent reference tables and x/text charmaps; " +
 		"generated: code->text maps (1-300 entries, code width 1-4, targets ASCII/BMP/ligature/multi-char/combining/astral) rendered by an " +
 		"independent CMap writer under every formatting policy (bfchar lines / one line / bfrange offset / bfrange array / arrays spanning lines; LF, CRLF), " +
-		"mutated (malformed) programs, scalar strings through UTF-16BE/LE (all scalars swept), byte strings through (*Font).DecodeString and text.Extractor, one-page PDFs (TrueType font with /Encoding and /ToUnicode) through tabula.Open(f).Fragments(). " +
+		"mutated (malformed) programs, scalar strings through UTF-16BE/LE (all scalars swept), byte strings through (*Font).DecodeString and text.Extractor, one-page PDFs (TrueType font with /Encoding and /ToUnicode) through tabula.Open(f).Fragments(), " +
+		"one-page PDFs with 2-4 font dictionaries (TrueType/Type1/Type0; sharing one BaseFont or not; each with its own ToUnicode and/or /Encoding, the same codes mapped differently; " +
+		"bound in the page and in Form XObjects it draws, under unique names or names every scope starts again) where every shown string must decode by the dictionary its Tf selects. " +
 		"non-trivial = the decoded result is non-empty"
 	runEncodings(c)
 	runUTF16(c)
@@ -48,6 +50,7 @@ func Run(c *hx.Ctx) {
 	runMalformed(c)
 	runFonts(c)
 	runPDF(c)
+	runMultiFont(c)
 	c.Rep.Exhaustive = true
 }
 
@@ -140,6 +143,8 @@ func Replay(c *hx.Ctx, k map[string]interface{}) {
 		noFontCase(c, unhex(k["data"]), false)
 	case "pdf":
 		replayPDF(c, k)
+	case "multifont":
+		replayMultiFont(c, k)
 	default:
 		c.Note("C07 replay: unknown case kind %q", kind)
 	}
